@@ -123,6 +123,53 @@ static void post_rec(size_t n) { if(g_post_calls < 2) g_post_calls++; g_post_n =
 static void ib_release_rec(void) { if(g_rel_calls < 2) g_rel_calls++; }
 static void sock_async_read_rec(void *p, size_t n) { if(g_sock_calls < 2) g_sock_calls++; g_sock_p = p; g_sock_n = n; }
 '''
+
+PRE += r'''
+/* ---- some_headers_data_read as a whole (C02): whatever the peer sends, each invocation ends in EXACTLY ONE continuation -- the completion handler with an error, another read of header bytes
+ *      (only while at most 16 KiB were read), or process_request -- and every buffer it sizes holds what is written into it.  The parser, the socket and parse_single_header are oracles. */
+#define P_more_data 0
+#define P_got_header 1
+#define P_end_of_headers 2
+#define P_error_observerd 3
+struct hconn { bool first_header_observerd_; size_t total_read_; unsigned input_body_ptr_; size_t ib_n, ib_cap; char *request_method_; char *request_uri_; bool is_http_11_; long long env_content_length_; char const *env_content_type_; };
+int g_hc_h, g_hc_again, g_hc_pr, g_hc_h_kind, g_hc_bad; size_t g_again_total; char *g_hname; size_t g_hname_len; char *g_hvalue; char const *g_line_p; size_t g_line_n;
+char *g_al_p; size_t g_al_n, g_al_used;
+static void hc_h_rec(int kind) { if(g_hc_h < 2) g_hc_h++; g_hc_h_kind = kind; }
+static void hc_again_rec(struct hconn *c) { if(g_hc_again < 2) g_hc_again++; g_again_total = c->total_read_; }
+static void hc_process_request_rec(void) { if(g_hc_pr < 2) g_hc_pr++; }
+static size_t bytes_readable_rec(bool *e) { int f; size_t n; *e = f != 0; return n; }
+static void ib_reserve(struct hconn *c, size_t n) { __CPROVER_assert(n <= 16384, "the header read buffer is never grown beyond 16 KiB"); if(c->ib_cap < n) c->ib_cap = n; }
+static void ib_resize(struct hconn *c, size_t n) { __CPROVER_assert(n <= c->ib_cap || n <= 16384, "resize within the reserved capacity"); c->ib_n = n; if(c->ib_cap < n) c->ib_cap = n; }
+static size_t read_some_rec(struct hconn *c, bool *e) { size_t n; __CPROVER_assume(n <= c->ib_n); int f; *e = f != 0; if(*e) n = 0; return n; }
+static int parser_step_rec(void) { int r; return r; }
+static bool psh_rec(char const **name, char const **value) { int ok; if(!ok) return 0; *name = g_hname; *value = g_hvalue; return 1; }
+static int name_is_rec(char const *name, char const *lit) { if(name != g_hname) g_hc_bad = 1; int r; return r; }
+static long long atoll_rec(char const *v) { if(v != g_hvalue) g_hc_bad = 1; long long r; return r; }
+static void env_add2_rec(char const *n, char const *v) { if(v != g_hvalue) g_hc_bad = 1; }
+static size_t name_strlen(char const *n) { if(n != g_hname) g_hc_bad = 1; return g_hname_len; }
+char g_al_block[4];
+static char *pool_alloc_n(size_t n) { g_al_p = g_al_block; g_al_n = n; g_al_used = 0; return g_al_block; }   /* the block is tracked by its logical size */
+/* strcpy(dst, literal) / strcat(dst, name): the destination is the block just allocated and must hold literal ++ name ++ NUL */
+static void strcpy_lit_rec(char *dst, char const *lit)
+{
+  size_t l = lit[0] == 0 ? 0 : lit[1] == 0 ? 1 : lit[2] == 0 ? 2 : lit[3] == 0 ? 3 : lit[4] == 0 ? 4 : lit[5] == 0 ? 5 : lit[6] == 0 ? 6 : lit[7] == 0 ? 7 : 8;
+  __CPROVER_assert(dst == g_al_p && l < 8 && l + 1 <= g_al_n, "strcpy of the prefix fits the block just allocated");
+  g_al_used = l;
+}
+static void strcat_rec(char *dst, char const *src)
+{
+  if(src != g_hname) g_hc_bad = 1;
+  __CPROVER_assert(dst == g_al_p && g_al_used <= g_al_n && g_hname_len < g_al_n - g_al_used, "strcat of the header name fits the block just allocated (prefix + name + NUL)");
+  g_al_used += g_hname_len;
+}
+/* light, allocation-free versions of the request-line recorders (their values are decided in job http_request_line) */
+char g_slot_a[4], g_slot_b[4], g_slot_c[4];
+static char *hc_pool_add_range(char const *b, char const *e) { __CPROVER_assert(SAME(b, e) && OFF(b) <= OFF(e), "pool_.add(begin,end) is given an ordered range of one object"); int w; return w ? g_slot_a : g_slot_b; }
+static char *hc_pool_add_str(char const *p) { return g_slot_c; }
+static void hc_env_add(int key, char const *v) { }
+static int hc_strcmp(char const *p, char const *l) { int r; return r; }
+#define HC_IB_EMPTY(c) ((c)->ib_n == 0 || (c)->input_body_ptr_ == (c)->ib_n)
+'''
 functions = [
     dict(cname='http_parser_step', file=H, locate=r'int step\(\)', sig='int http_parser_step(struct hparser *self)', members=['state_', 'bracket_counter_'],
          rename={'getc': 'p_getc', 'ungetc': 'p_ungetc'},
@@ -265,6 +312,40 @@ __CPROVER_ensures((g_n0 - g_pt0) != 0 ==> (g_sock_calls == 0 && g_post_calls == 
                                                                                                 : (self->ib_n == g_n0 && self->input_body_ptr_ == g_pt0 + g_post_n))))
 __CPROVER_ensures((g_n0 - g_pt0) == 0 ==> (g_post_calls == 0 && g_cpy_calls == 0 && g_sock_calls == 1 && g_sock_p == p && g_sock_n == s && self->ib_n == 0 && self->input_body_ptr_ == 0))
 '''),
+    dict(stub=True, cname='find_ch2', sig='char const *find_ch2(char const *b, char const *e, char c)',
+         contract='/* std::find: some position of the range (what it finds is decided in job http_request_line) */\n__CPROVER_requires(VALID_RANGE(b, e))\n__CPROVER_assigns()\n__CPROVER_ensures(IN_RANGE(__CPROVER_return_value, b, e))'),
+    dict(cname='http_headers_read', file=HA, locate=lit('virtual void some_headers_data_read(booster::system::error_code const &er,handler const &h)'),
+         sig='void http_headers_read(struct hconn *self, bool er)', members=['first_header_observerd_', 'total_read_', 'input_body_ptr_', 'request_method_', 'request_uri_', 'is_http_11_', 'env_content_length_', 'env_content_type_'],
+         rewrites=[(r'h\(er\)', 'hc_h_rec(1)', 1), (r'h\(e\)', 'hc_h_rec(1)', 0), (r'h\(booster::system::error_code\((?:[^()]|\([^()]*\))*\)\);', 'hc_h_rec(2);', 0),
+                   (r'input_buffer_empty\(\)', 'HC_IB_EMPTY(self)', 1), (r'booster::system::error_code e;', 'bool e = 0;', 0), (r'socket_\.bytes_readable\(e\)', 'bytes_readable_rec(&e)', 0),
+                   (r'input_body_\.capacity\(\)', 'self->ib_cap', 0), (r'input_body_\.reserve\(', 'ib_reserve(self, ', 0), (r'input_body_\.resize\(([^;,]+),\w\);', r'ib_resize(self, \1);', 0), (r'input_body_\.resize\(([^;,]+)\);', r'ib_resize(self, \1);', 0),
+                   (r'socket_\.read_some\(booster::aio::buffer\(input_body_\),e\)', 'read_some_rec(self, &e)', 0), (r'input_body_\.size\(\)', 'self->ib_n', 0),
+                   (r'using ::cppcms::http::impl::parser;', '', 1), (r'parser::(\w+)', r'P_\1', 4), (r'input_parser_\.step\(\)', 'parser_step_rec()', 1),
+                   (r'async_read_some_headers\(h\)', 'hc_again_rec(self)', 0), (r'process_request\(h\)', 'hc_process_request_rec()', 0),
+                   # request line block: the same vocabulary as the slice job http_request_line
+                   (r'input_parser_\.header_\.c_str\(\)', 'g_line_p', 0), (r'input_parser_\.header_\.size\(\)', 'g_line_n', 0), (r'std::find\(', 'find_ch2(', 0),
+                   (r'pool_\.add\(([^,()]+),([^,()]+)\)', r'hc_pool_add_range(\1, \2)', 0), (r'pool_\.add\((\w+)\)', r'hc_pool_add_str(\1)', 0), (r'env_\.add\("(\w+)",', r'hc_env_add(K_\1,', 0),
+                   (r'strcmp\(name,("[^"]*")\)', r'name_is_rec(name, \1)', 0), (r'strcmp\((\w+),("[^"]*")\)', r'hc_strcmp(\1, \2)', 0), (r'BOOSTER_INFO\("cppcms_http"\)[^;]*;', '', 0),
+                   # other headers
+                   (r'parse_single_header\(input_parser_\.header_,name,value\)', 'psh_rec(&name, &value)', 0), (r'env_\.add\((\w+),(\w+)\)', r'env_add2_rec(\1, \2)', 0), (r'\batoll\(', 'atoll_rec(', 0),
+                   (r'pool_\.alloc\(', 'pool_alloc_n(', 0), (r'strlen\(name\)', 'name_strlen(name)', 0), (r'strcpy\((\w+),("[^"]*")\)', r'strcpy_lit_rec(\1, \2)', 0), (r'strcat\((\w+),(\w+)\)', r'strcat_rec(\1, \2)', 0)],
+         loops={0: r'''
+__CPROVER_assigns(self->first_header_observerd_, self->request_method_, self->request_uri_, self->is_http_11_, self->env_content_length_, self->env_content_type_, g_hc_h, g_hc_h_kind, g_hc_again, g_again_total, g_hc_pr, g_hc_bad, g_al_p, g_al_n, g_al_used)
+__CPROVER_loop_invariant(g_hc_h == 0 && g_hc_again == 0 && g_hc_pr == 0 && g_hc_bad == 0)
+'''},
+         contract=r'''
+__CPROVER_requires(__CPROVER_rw_ok(self, sizeof(*self)) && g_hc_h == 0 && g_hc_again == 0 && g_hc_pr == 0 && g_hc_bad == 0 &&
+                   self->ib_n <= 16384 && self->ib_cap >= self->ib_n && self->ib_cap <= 16384 && self->input_body_ptr_ <= self->ib_n && self->total_read_ <= 40000 &&
+                   g_line_n <= BUF_CAP && __CPROVER_r_ok(g_line_p, g_line_n + 1) && g_line_p[g_line_n] == 0 && g_hname_len <= BUF_CAP && __CPROVER_r_ok(g_hname, g_hname_len + 1) && __CPROVER_r_ok(g_hvalue, 1))
+__CPROVER_assigns(self->first_header_observerd_, self->total_read_, self->input_body_ptr_, self->ib_n, self->ib_cap, self->request_method_, self->request_uri_, self->is_http_11_, self->env_content_length_, self->env_content_type_,
+                  g_hc_h, g_hc_h_kind, g_hc_again, g_again_total, g_hc_pr, g_hc_bad, g_al_p, g_al_n, g_al_used)
+/* C02: exactly one continuation per invocation, whatever arrived */
+__CPROVER_ensures(g_hc_h + g_hc_again + g_hc_pr == 1 && g_hc_bad == 0)
+/* a failed read is reported and nothing else happens */
+__CPROVER_ensures(er ==> (g_hc_h == 1 && g_hc_h_kind == 1))
+/* more header bytes are requested only while at most 16 KiB were read for this request: the header memory a peer can make the server hold is bounded */
+__CPROVER_ensures(g_hc_again == 1 ==> g_again_total <= 16384)
+'''),
 ]
 PRE += 'size_t g_h0, g_p0, g_c0, g_u0;\n'
 
@@ -297,6 +378,11 @@ jobs = [
     struct hbody b; size_t n, sz, k; __CPROVER_assume(n <= BUF_CAP && sz <= BUF_CAP); b.ib_p = malloc(n); b.ib_n = n; char *dst = malloc(sz); __CPROVER_assume(b.ib_p != NULL && dst != NULL); g_pk = k;
     g_post_calls = 0; g_sock_calls = 0; g_cpy_calls = 0; g_rel_calls = 0; g_n0 = n; g_pt0 = b.input_body_ptr_; g_ibp = b.ib_p;
     http_async_read_some(&b, dst, sz); VERIF_REACH;'''),
+    dict(name='http_headers_read', props=P, **REPLAYH, enforce='http_headers_read', replace=['find_ch2'], timeout=600, harness=r'''
+    struct hconn c; c.first_header_observerd_ = 0; size_t ln, nl, a, b2; __CPROVER_assume(ln <= BUF_CAP && nl <= BUF_CAP); char *line = malloc(ln + 1); char *nm = malloc(nl + 1); char *val = malloc(1);
+    __CPROVER_assume(line != NULL && nm != NULL && val != NULL && line[ln] == 0); g_line_p = line; g_line_n = ln; g_hname = nm; g_hname_len = nl; g_hvalue = val; g_ga = a; g_gr = b2;
+    g_hc_h = 0; g_hc_again = 0; g_hc_pr = 0; g_hc_bad = 0; int er;
+    http_headers_read(&c, er != 0); VERIF_REACH;'''),
 ]
 
 UNIT = dict(
@@ -304,5 +390,5 @@ UNIT = dict(
     regions=[dict(name='states', file=H, start=r'enum \{\s*idle,', end=r'\}\s*state_;', rewrites=[(r'\}\s*state_;', '} states_t;', 1), (r'^enum', 'typedef enum', 1)]),
              dict(name='results', file=H, start=r'enum \{ more_data,', end=r'\};')],
     trusted=['httpparser: getc()/ungetc() (input cursor with one byte of push-back: std::stack<char> ungot_ and the two buffer modes) and std::string header_ (length + last two bytes) are stubs (R8/R10)'],
-    not_covered={'C01': ['http_api.cpp: REMOTE_ADDR / proxy variables, rewrite rules, body hand-over; that a configured script name that DOES match is chosen (only soundness of the chosen name is under contract)'], 'C02': ['http_api.cpp callbacks (error responses, timeouts)']},
+    not_covered={'C01': ['http_api.cpp: REMOTE_ADDR / proxy variables, rewrite rules, body hand-over; that a configured script name that DOES match is chosen (only soundness of the chosen name is under contract)'], 'C02': ['http_api.cpp: error_response / timeouts / watchdog, the write side']},
 )
